@@ -71,8 +71,42 @@ impl Cfg {
         Cfg { layers, level, recipients: 1 }
     }
     pub fn writer_config(&self) -> ArchiveWriterConfig {
-        let mut c = ArchiveWriterConfig::new();
-        c.set_layers(self.layers.layers());
+        // the same configuration is reached through the different routes the API offers, chosen from the
+        // configuration itself so that every check exercises all of them
+        let want = self.layers.layers();
+        let route = (self.level as usize + self.recipients) % 4;
+        let mut c = match route {
+            0 => {
+                let mut c = ArchiveWriterConfig::new();
+                c.set_layers(want);
+                c
+            }
+            1 => {
+                // default configuration (all layers), the unwanted ones disabled
+                let mut c = ArchiveWriterConfig::default();
+                for l in [Layers::COMPRESS, Layers::ENCRYPT] {
+                    if !want.contains(l) {
+                        c.disable_layer(l);
+                    }
+                }
+                c
+            }
+            2 => {
+                let mut c = ArchiveWriterConfig::new();
+                for l in [Layers::ENCRYPT, Layers::COMPRESS] {
+                    if want.contains(l) {
+                        c.enable_layer(l);
+                    }
+                }
+                c
+            }
+            _ => {
+                let mut c = ArchiveWriterConfig::default();
+                c.set_layers(Layers::EMPTY);
+                c.enable_layer(want);
+                c
+            }
+        };
         c.with_compression_level(self.level).expect("level");
         if self.layers.encrypted() {
             // recipients are registered the way callers do it: one call for one key, and for several keys
@@ -421,7 +455,12 @@ pub fn build(p: &Program, cfg: &Cfg) -> Result<(Vec<u8>, Vec<usize>), String> {
 
 /// Same program, written into a Vec that is taken back with `into_raw()` after finalize.
 pub fn build_into_raw(p: &Program, cfg: &Cfg) -> Result<Vec<u8>, String> {
-    let mut w = ArchiveWriter::from_config(Vec::new(), cfg.writer_config()).map_err(|e| format!("from_config: {e:?}"))?;
+    // the default configuration (both layers, level 5) is also reachable through the convenience constructor
+    let mut w = if cfg.layers == L4::Both && cfg.level == 5 && p.ops.len() % 2 == 0 {
+        ArchiveWriter::new(Vec::new(), &keys::publics(cfg.recipients)).map_err(|e| format!("new: {e:?}"))?
+    } else {
+        ArchiveWriter::from_config(Vec::new(), cfg.writer_config()).map_err(|e| format!("from_config: {e:?}"))?
+    };
     let mut ids: BTreeMap<usize, u64> = BTreeMap::new();
     let mut lens: BTreeMap<usize, u64> = BTreeMap::new();
     for (k, o) in p.ops.iter().enumerate() {
@@ -466,7 +505,13 @@ pub fn build_unfinalized(p: &Program, cfg: &Cfg) -> Result<(Vec<u8>, Vec<usize>)
 pub fn reader_config(key_indices: &[usize]) -> ArchiveReaderConfig {
     let mut c = ArchiveReaderConfig::new();
     let ks: Vec<_> = key_indices.iter().map(|i| keys::secret(*i)).collect();
-    c.add_private_keys(&ks);
+    // several candidate keys: registered in two calls, as a caller collecting keys one by one does
+    if ks.len() >= 2 {
+        c.add_private_keys(&ks[..1]);
+        c.add_private_keys(&ks[1..]);
+    } else {
+        c.add_private_keys(&ks);
+    }
     c
 }
 
@@ -484,7 +529,11 @@ pub fn read_all_from<R: Read + io::Seek>(
     key_indices: &[usize],
     chunk: usize,
 ) -> Result<BTreeMap<String, ReadFile>, String> {
-    let mut r = ArchiveReader::from_config(src, reader_config(key_indices)).map_err(|e| format!("open: {e:?}"))?;
+    let mut r = if key_indices.is_empty() {
+        ArchiveReader::new(src).map_err(|e| format!("open: {e:?}"))?
+    } else {
+        ArchiveReader::from_config(src, reader_config(key_indices)).map_err(|e| format!("open: {e:?}"))?
+    };
     let mut names: Vec<String> = r.list_files().map_err(|e| format!("list: {e:?}"))?.cloned().collect();
     names.sort();
     let mut out = BTreeMap::new();
@@ -588,13 +637,37 @@ pub fn status_variant(dbg: &str) -> String {
 /// Err(("open", msg)) if the fail-safe reader could not be created,
 /// Err(("convert", msg)) if convert_to_archive returned Err.
 pub fn repair_from<R: Read>(src: R, key_indices: &[usize], unauthenticated: bool) -> Result<RepairResult, (String, String)> {
+    repair_route(src, key_indices, unauthenticated, 1)
+}
+
+/// `route` selects how the reader configuration reaches the requested mode: 0 = the authenticated mode is
+/// left at its default (nothing called), 1 = the setter of the requested mode is called, 2 = the other mode
+/// is set first and the requested one afterwards; without keys and in the default mode, route 0 uses
+/// `ArchiveFailSafeReader::new`.
+pub fn repair_route<R: Read>(src: R, key_indices: &[usize], unauthenticated: bool, route: usize) -> Result<RepairResult, (String, String)> {
     let mut rc = reader_config(key_indices);
-    if unauthenticated {
-        rc.failsafe_return_data_even_unauthenticated();
-    } else {
-        rc.failsafe_return_only_authenticated_data();
+    match (unauthenticated, route % 3) {
+        (true, 2) => {
+            rc.failsafe_return_only_authenticated_data();
+            rc.failsafe_return_data_even_unauthenticated();
+        }
+        (true, _) => {
+            rc.failsafe_return_data_even_unauthenticated();
+        }
+        (false, 0) => {}
+        (false, 1) => {
+            rc.failsafe_return_only_authenticated_data();
+        }
+        (false, _) => {
+            rc.failsafe_return_data_even_unauthenticated();
+            rc.failsafe_return_only_authenticated_data();
+        }
     }
-    let mut fs = ArchiveFailSafeReader::from_config(src, rc).map_err(|e| ("open".to_string(), format!("{e:?}")))?;
+    let mut fs = if key_indices.is_empty() && !unauthenticated && route % 3 == 0 {
+        ArchiveFailSafeReader::new(src).map_err(|e| ("open".to_string(), format!("{e:?}")))?
+    } else {
+        ArchiveFailSafeReader::from_config(src, rc).map_err(|e| ("open".to_string(), format!("{e:?}")))?
+    };
     let sink = SharedSink::new();
     let mut wc = ArchiveWriterConfig::new();
     wc.set_layers(Layers::EMPTY);
@@ -612,5 +685,6 @@ pub fn repair_from<R: Read>(src: R, key_indices: &[usize], unauthenticated: bool
 }
 
 pub fn repair(bytes: &[u8], key_indices: &[usize], unauthenticated: bool) -> Result<RepairResult, (String, String)> {
-    repair_from(bytes, key_indices, unauthenticated)
+    // the configuration route rotates with the input length (deterministic; prefix sweeps cover all three)
+    repair_route(bytes, key_indices, unauthenticated, bytes.len())
 }
